@@ -267,7 +267,9 @@ func (g *CommonValidator) validateUniqueValue(
 	}
 
 	// Mark this value as used by this annotation type
-	uniqueValues[attr.Value] = attr.Name
+	if def.RequiresUniqueValue {
+		uniqueValues[attr.Value] = attr.Name
+	}
 	return diagToReturn
 }
 
